@@ -141,16 +141,17 @@ func checkC28(c *Ctx) {
 		// f is given, and every path that does not use f's answer returns, the
 		// node as rebuilt from the replaced children (not the original node)
 		var rebuilt []*ssa.Call
-		for _, cs := range Calls(ra) {
-			if f := Callee(cs.Common()); f != nil && PkgPathOf(f) == ExprPkg && strings.HasPrefix(f.Name(), "New") {
-				if call, ok := cs.Instr.(*ssa.Call); ok {
+		enterRA := InModulePkg(ra)
+		for _, st := range DeepCalls(ra, func(g *ssa.Function) bool { return enterRA(g) && Origin(g) != Origin(ra) }) {
+			if f := Callee(st.Call().Common()); f != nil && PkgPathOf(f) == ExprPkg && strings.HasPrefix(f.Name(), "New") {
+				if call, ok := st.Instr.(*ssa.Call); ok {
 					rebuilt = append(rebuilt, call)
 				}
 			}
 		}
 		missing := func(v ssa.Value) string {
 			for _, rb := range rebuilt {
-				if !DependsOn(v, func(w ssa.Value) bool { return w == ssa.Value(rb) }) {
+				if !DependsOnVia(nil, v, func(g *ssa.Function) bool { return enterRA(g) && Origin(g) != Origin(ra) }, func(w ssa.Value) bool { return w == ssa.Value(rb) }, nil) {
 					return rb.Call.StaticCallee().Name() + " at " + c.Prog.Pos(rb.Pos())
 				}
 			}
@@ -322,6 +323,7 @@ func checkEqual(c *Ctx, eq *ssa.Function, model map[string]*NodeModel) {
 		}
 		// atoms
 		covers := map[ssa.Value][]string{}
+		negAtom := map[ssa.Value]bool{} // `a != b`: the pair is equal when the atom is false
 		acc := func(v ssa.Value, e ssa.Value) string {
 			for a := range m.AccField {
 				if accessorCallOn(v, e, a) {
@@ -343,9 +345,12 @@ func checkEqual(c *Ctx, eq *ssa.Function, model map[string]*NodeModel) {
 			for _, in := range b.Instrs {
 				switch x := in.(type) {
 				case *ssa.BinOp:
-					if x.Op == token.EQL {
+					if x.Op == token.EQL || x.Op == token.NEQ {
 						if a := pair(x.X, x.Y); a != "" {
 							covers[x] = []string{a}
+							if x.Op == token.NEQ {
+								negAtom[x] = true
+							}
 						}
 					}
 				case *ssa.Call:
@@ -396,7 +401,7 @@ func checkEqual(c *Ctx, eq *ssa.Function, model map[string]*NodeModel) {
 			}
 			got := map[string]bool{}
 			for atom, val := range p.Assign {
-				if val {
+				if val != negAtom[atom] {
 					for _, a := range covers[atom] {
 						got[a] = true
 					}
@@ -457,14 +462,17 @@ func ownEqualCovers(c *Ctx, f *ssa.Function, m *NodeModel) []string {
 		return 0, false
 	}
 	covers := map[ssa.Value]int{}
+	negOwn := map[ssa.Value]bool{}
 	for _, b := range f.Blocks {
 		for _, in := range b.Instrs {
 			var x, y ssa.Value
+			neg := false
 			switch v := in.(type) {
 			case *ssa.BinOp:
-				if v.Op != token.EQL {
+				if v.Op != token.EQL && v.Op != token.NEQ {
 					continue
 				}
+				neg = v.Op == token.NEQ
 				x, y = v.X, v.Y
 			case *ssa.Call:
 				g := v.Call.StaticCallee()
@@ -483,6 +491,9 @@ func ownEqualCovers(c *Ctx, f *ssa.Function, m *NodeModel) []string {
 			}
 			if ok1 && ok2 && a == b2 {
 				covers[in.(ssa.Value)] = a
+				if neg {
+					negOwn[in.(ssa.Value)] = true
+				}
 			}
 		}
 	}
@@ -497,7 +508,7 @@ func ownEqualCovers(c *Ctx, f *ssa.Function, m *NodeModel) []string {
 		}
 		got := map[int]bool{}
 		for atom, val := range p.Assign {
-			if val {
+			if val != negOwn[atom] {
 				got[covers[atom]] = true
 			}
 		}
